@@ -111,7 +111,7 @@ def _cat(parts):
             thorough=dict(params=dict(k1=Bytes(3), k2=Bytes(3), o1=Bytes(3, min=1), o2=Bytes(3, min=1), r3=Int(1, 3),
                                       pend=Bytes(2)), timeout=3000, split=('nk', 'no', 'r0', 'r1'), twin_timeout=120),
             note='bytes mode: symbolic keystrokes and child output, readiness script of four turns')
-def I1_copy(k1, k2, o1, o2, nk, no, r0, r1, r2, r3, exits, partial, pend, poll, filt, drop=0, esc=0):
+def I1_copy(k1, k2, o1, o2, nk, no, r0, r1, r2, r3, exits, partial, pend, poll, filt, drop=0, esc=0, fk=0):
     nk, no = pick(nk, 0, 2), pick(no, 0, 2)
     keys = [k1, k2][:nk]
     outs = [o1, o2][:no]
@@ -144,8 +144,17 @@ def I1_copy(k1, k2, o1, o2, nk, no, r0, r1, r2, r3, exits, partial, pend, poll, 
     upper = (lambda b: b) if not filt else None
     seen_in, seen_out = [], []
 
+    # input filter kinds: 0 passes keystrokes through; 1 maps Ctrl-Q (0x11) to the escape character (an extra quit
+    # key); 2 replaces the escape character by 'G' (the inner application needs that key).  The documentation says
+    # the filter runs BEFORE the escape character is looked for.
+    fk = pick(fk, 0, 2) if filt else 0
+
     def fin(b):
         seen_in.append(b)
+        if fk == 1:
+            return b.replace(b'\x11', bytes([ESCAPES[esc]]))
+        if fk == 2:
+            return b.replace(bytes([ESCAPES[esc]]), b'G')
         return b
 
     drop = pick(drop, 0, 2) if filt else 0
@@ -188,6 +197,10 @@ def I1_copy(k1, k2, o1, o2, nk, no, r0, r1, r2, r3, exits, partial, pend, poll, 
                 break               # EIO: the loop ended here
         if r & 2:
             k = ks.pop(0)
+            if fk == 1:
+                k = k.replace(b'\x11', bytes([ESC]))
+            elif fk == 2:
+                k = k.replace(bytes([ESC]), b'G')
             i = k.find(bytes([ESC]))
             if i >= 0:
                 exp_child = exp_child + k[:i]
@@ -211,15 +224,15 @@ def I1_copy(k1, k2, o1, o2, nk, no, r0, r1, r2, r3, exits, partial, pend, poll, 
 
 
 @obligation(params=dict(k1=Bytes(4, min=1), k2=Bytes(1, min=1), partial=Bool(), pend=Bytes(1), poll=Bool(), filt=Bool(), two=Bool(),
-                        esc=Int(0, 3)),
-            tags={2: 'escape typed', 4: 'escape typed twice in one read', 3: 'child exited'}, timeout=600, split=('two', 'esc'),
-            note='(esc: default escape / the same given explicitly / chr(0xff) / chr(0x80)) one longer keyboard read (<= 4 bytes, escape anywhere) optionally preceded by a one-byte read, with '
+                        esc=Int(0, 3), fk=Int(0, 2)),
+            tags={2: 'escape typed', 4: 'escape typed twice in one read', 3: 'child exited'}, timeout=600, split=('two', 'esc', 'fk'),
+            note='(fk: input filter passes through / turns Ctrl-Q into the escape character / replaces the escape character; esc: default escape / the same given explicitly / chr(0xff) / chr(0x80)) one longer keyboard read (<= 4 bytes, escape anywhere) optionally preceded by a one-byte read, with '
                  'partial writes towards the child: the bytes before the escape reach the child completely '
                  '(added after a seeded change that wrote that prefix with a single os.write was missed at 2-byte reads)')
-def I1b_escape_prefix(k1, k2, partial, pend, poll, filt, two, esc=0):
+def I1b_escape_prefix(k1, k2, partial, pend, poll, filt, two, esc=0, fk=0):
     if two:
-        return I1_copy(k2, k1, lit(b'x'), lit(b'y'), 2, 0, 2, 2, 1, 0, True, partial, pend, poll, filt, 0, esc)
-    return I1_copy(k1, k2, lit(b'x'), lit(b'y'), 1, 0, 2, 1, 1, 0, True, partial, pend, poll, filt, 0, esc)
+        return I1_copy(k2, k1, lit(b'x'), lit(b'y'), 2, 0, 2, 2, 1, 0, True, partial, pend, poll, filt, 0, esc, fk)
+    return I1_copy(k1, k2, lit(b'x'), lit(b'y'), 1, 0, 2, 1, 1, 0, True, partial, pend, poll, filt, 0, esc, fk)
 
 
 @obligation(params=dict(boom=Int(1, 3), o1=Bytes(2, min=1), k1=Bytes(2, min=1)), tags={2: 'mode restored after an exception'},
